@@ -22,6 +22,11 @@ def _alarm(signum, frame):
 def run_shard(prop, specs, case_timeout, keep_samples=2, debug=False):
     ensure_afkak_on_path()
     mod = importlib.import_module("afkverif.props.%s" % prop.lower())
+    import afkak
+    from .core import afkak_src
+    import os
+    if not os.path.realpath(afkak.__file__).startswith(os.path.realpath(afkak_src()) + os.sep):
+        raise RuntimeError("afkak imported from %s, not from %s" % (afkak.__file__, afkak_src()))
     out = []
     signal.signal(signal.SIGALRM, _alarm)
     if hasattr(mod, "setup_worker"):
